@@ -28,10 +28,27 @@ def run_pair_profile(res, profile, n_per_job, jobs_per_fw, fws=("tx", "aio"), le
     res.traces += v["n"]
     for k, c in v["coverage"].items():
         res.actions["WsChannelTrace:" + k] = res.actions.get("WsChannelTrace:" + k, 0) + c[1]
-    for idx, l in v["rejected"][:25]:
+    # second pass for rejected traces: only the deviation actions of recorded findings enabled (DESIGN 3.5)
+    explained = set()
+    if v["rejected"]:
+        rej = [traces[idx] for idx, _ in v["rejected"]]
+        v2 = tlc.validate_traces("WsChannelTrace", "WsChannelTrace_dev.cfg", rej, shards=min(8, len(rej)), timeout=3000)
+        still = {i for i, _ in v2["rejected"]}
+        explained = {v["rejected"][i][0] for i in range(len(rej)) if i not in still}
+    shown = 0
+    for idx, l in v["rejected"]:
         t = traces[idx]
-        res.classify("%s-%s-trace-%d" % (label or profile, meta[idx], idx),
-                     dict(fw=meta[idx], trace=_short(t), rejected_at=l, event=_short([t[l - 1]])[0] if l <= len(t) else None, spec="WsChannelTrace"))
+        keys = []
+        if idx in explained:
+            # which recorded deviation explains it: a refused compressed send (F16) or a message over the peer's decompression limit (F10)
+            keys = ["F10"] if any(e.get("ev") == "open" and any(e.get("dlimit", {}).values()) for e in t[:1]) else ["F16"]
+        if not keys and shown >= 25:
+            continue
+        r = res.classify("%s-%s-trace-%d" % (label or profile, meta[idx], idx),
+                         dict(fw=meta[idx], trace=_short(t), rejected_at=l, event=_short([t[l - 1]])[0] if l <= len(t) else None,
+                              spec="WsChannelTrace", explained_by_deviation=keys), keys)
+        if r == "violation":
+            shown += 1
     if traces:
         res.sample(_short(traces[0]))
         res.sample(_short(traces[len(traces) // 2]))
